@@ -460,7 +460,7 @@ func TestHostileValues(t *testing.T) {
 }
 
 func TestEncodeGenerated(t *testing.T) {
-	to := jgen.TypeOpts{MaxDepth: 4, Unsupported: true, Avoid: map[string]bool{}}
+	to := jgen.TypeOpts{MaxDepth: 4, Unsupported: true, Durations: true, Avoid: map[string]bool{}}
 	vo := jgen.ValOpts{BigSlice: true}
 	evid.Check(t, "EncodeGenerated", 6000, func(rt *rapid.T) {
 		td := jgen.GenType(rt, to)
@@ -492,7 +492,7 @@ func hasUnsupported(td *jgen.TypeDesc) bool {
 }
 
 func TestDecodeGenerated(t *testing.T) {
-	to := jgen.TypeOpts{MaxDepth: 3, Unsupported: true, Avoid: map[string]bool{}}
+	to := jgen.TypeOpts{MaxDepth: 3, Unsupported: true, Durations: true, Avoid: map[string]bool{}}
 	evid.Check(t, "DecodeGenerated", 10000, func(rt *rapid.T) {
 		td := jgen.GenType(rt, to)
 		typ := td.Type()
